@@ -13,11 +13,21 @@ package encoding
 //@   ensures [full-textual-value] calls(lang.Repr, v) == 1 && result == ret(lang.Repr)
 //@ func toStringKeyMap
 //@   prop C05
-//@   opaque convertSlice, convertKeyToString, convertNumberToJsonNumber, Repr
+//@   opaque convertSlice, convertKeyToString, convertNumberToJsonNumber, convertFloatToJsonNumber, Repr
+//@   replay encoding_yaml_json
 //@   ensures [list] typeis(v, []any) ==> calls(convertSlice) == 1 && arg(convertSlice, 0) == unbox(v, []any) && result == ret(convertSlice)
 //@   ensures [map] typeis(v, map[any]any) ==> calls(convertKeyToString) == 1 && arg(convertKeyToString, 0) == unbox(v, map[any]any) && typeis(result, map[string]any) && unbox(result, map[string]any) == ret(convertKeyToString)
 //@   ensures [bool-and-string-kept] typeis(v, bool) || typeis(v, string) ==> result == v && calls(Repr) == 0 && calls(convertNumberToJsonNumber) == 0
-//@   ensures [number-as-json-number] typeis(v, int) || typeis(v, int64) || typeis(v, uint64) || typeis(v, float64) || typeis(v, float32) || typeis(v, uint) || typeis(v, int32) ==> calls(convertNumberToJsonNumber, v) == 1 && typeis(result, json.Number) && unbox(result, json.Number) == ret(convertNumberToJsonNumber)
+// the same content as in JSON: YAML's null is JSON's null (not the empty string a textual rendering would give)
+//@   ensures [null-stays-null] v == nil ==> result == nil && calls(Repr) == 0
+//@   ensures [integer-as-json-number] typeis(v, int) || typeis(v, int64) || typeis(v, uint64) || typeis(v, uint) || typeis(v, int32) ==> calls(convertNumberToJsonNumber, v) == 1 && typeis(result, json.Number) && unbox(result, json.Number) == ret(convertNumberToJsonNumber)
+//@   ensures [float-as-json-float] typeis(v, float64) || typeis(v, float32) ==> calls(convertFloatToJsonNumber, v) == 1 && typeis(result, json.Number) && unbox(result, json.Number) == ret(convertFloatToJsonNumber) && calls(convertNumberToJsonNumber) == 0
+// a number the YAML document wrote as a float stays a float in JSON: its text keeps a fraction / exponent marker
+// (1.0 does not become the integer 1, which an int field would accept from YAML and reject from JSON)
+//@ func convertFloatToJsonNumber
+//@   prop C05
+//@   opaque Repr, ContainsAny
+//@   ensures [full-textual-value-with-a-float-marker] calls(lang.Repr, v) == 1 && calls(strings.ContainsAny) == 1 && arg(strings.ContainsAny, 0) == ret(lang.Repr) && arg(strings.ContainsAny, 1) == ".eEIN" && result == ite(ret(strings.ContainsAny), ret(lang.Repr), ret(lang.Repr) + ".0")
 //@ func convertSlice
 //@   prop C05
 //@   opaque toStringKeyMap
